@@ -20,7 +20,7 @@
 EXTENDS ZLinTrace
 
 TDied == /\ IsEvent("died") /\ Consume /\ UNCHANGED reads
-         /\ IF E.solo THEN \E j \in 0..Len(tail) : Cut(j)
+         /\ IF E.solo THEN \E D \in SUBSET Idx(tail) : Cut(D)
                       ELSE UNCHANGED linVars
 
 TRestarted == /\ IsEvent("restarted") /\ E.ok      \* Recoverable: a failed restart is no step
